@@ -441,4 +441,27 @@ Proof.
   - intros r ks m o Hi. vm_compute in Hi. repeat (destruct Hi as [Hi | Hi]; [inversion Hi; reflexivity |]). destruct Hi.
   - exists 11. split; [vm_compute; auto | vm_compute; reflexivity].
 Qed.
+(* why C02_atomic_fallback_partial stays partial: the corner is real ON THE MODEL. A store that answers min-commit 0 for a
+   request that wrote no lock (here: a CheckNotExists-only batch) makes the owner a 2PC committer although every lock is an
+   async-commit lock with the full secondaries list; a resolver folds to the locks' maximum, the owner commits its primary
+   at a fresh ts: two commit timestamps. (TiKV answers max(requested, start+1) for such a request and writes non-async
+   locks whenever it declines: no store in the test bed produces this trace.) *)
+Example fallback_corner_two_commit_ts_on_the_model : exists s, run
+  [ ETso S0; EBegin 1 S0; ECommitCall S0 false; ETso (S0 + 1); EMutations S0 10 [(10, OpPut); (11, OpPut); (12, OpCne)];
+    EPwSend 1 S0 10 [10] true false (S0 + 2) 0 [11]; EPwSend 1 S0 10 [11] true false (S0 + 2) 0 []; EPwSend 1 S0 10 [12] true false (S0 + 2) 0 [];
+    EPwDeliver 1 S0 [10] (PwOk (S0 + 3) 0); EPwDeliver 1 S0 [11] (PwOk (S0 + 4) 0); EPwDeliver 1 S0 [12] (PwOk 0 0);
+    EPwReply 1 S0 [10] (PwOk (S0 + 3) 0); EPwReply 1 S0 [11] (PwOk (S0 + 4) 0); EPwReply 1 S0 [12] (PwOk 0 0);
+    ELockSeen 2 S0 3000; ECtsSend 2 S0 10 (S0 + 5) (S0 + 5) false false false; ECtsDeliver 2 S0 10 (StLocked 3000 (S0 + 3) true [11]);
+    ECtsReply 2 S0 10 (StLocked 3000 (S0 + 3) true [11]); ECslSend 2 S0 [11]; ECslDeliver 2 S0 [11] (CslLocks [(11, S0 + 4)]);
+    ECslReply 2 S0 [11] (CslLocks [(11, S0 + 4)]); ERsSend 2 S0 (S0 + 4) [11]; ERsDeliver 2 S0 (S0 + 4) [11] GOk;
+    ETso (S0 + 9); ECmSend 1 S0 (S0 + 9) [10]; ECmDeliver 1 S0 (S0 + 9) [10] CmOk ] = Some s /\
+  kget s S0 11 = Committed (S0 + 4) /\ kget s S0 10 = Committed (S0 + 9) /\
+  ~ mixed s S0 /\ ~ asyncm s S0 /\ ~ classic s S0.
+Proof.
+  eexists. split; [vm_compute; reflexivity |]. split; [vm_compute; reflexivity |]. split; [vm_compute; reflexivity |].
+  split; [| split].
+  - intros [_ [_ [k0 [K1 K2]]]]. vm_compute in K1. destruct K1 as [<- | [<- | []]]; vm_compute in K2; discriminate K2.
+  - intros [_ [_ [_ [Hf _]]]]. vm_compute in Hf. discriminate Hf.
+  - intros [Ha _]. vm_compute in Ha. discriminate Ha.
+Qed.
 
